@@ -73,8 +73,19 @@ func ReadHeaderAndSize(r io.Reader, maxReadBytes uint64) (*CarHeader, uint64, er
 	return &ch, util.LdSize(hb), nil
 }
 
+// encodable returns h with a nil root list replaced by an empty one: "no roots" is the empty array in a
+// CARv1 header, whereas a nil slice would be encoded as null, which is not a CARv1 header.
+func encodable(h *CarHeader) *CarHeader {
+	if h.Roots != nil {
+		return h
+	}
+	c := *h
+	c.Roots = []cid.Cid{}
+	return &c
+}
+
 func WriteHeader(h *CarHeader, w io.Writer) error {
-	hb, err := cbor.DumpObject(h)
+	hb, err := cbor.DumpObject(encodable(h))
 	if err != nil {
 		return err
 	}
@@ -83,7 +94,7 @@ func WriteHeader(h *CarHeader, w io.Writer) error {
 }
 
 func HeaderSize(h *CarHeader) (uint64, error) {
-	hb, err := cbor.DumpObject(h)
+	hb, err := cbor.DumpObject(encodable(h))
 	if err != nil {
 		return 0, err
 	}
